@@ -1472,7 +1472,20 @@ SELF_MUTATIONS = [
     ("include/tapkee/routines/landmarks.hpp", "embedding.row(index_iter).noalias()", "embedding.row(0).noalias()"),
     ("include/tapkee/routines/locally_linear.hpp", "ct += target_dimension - j;", "ct += ct + target_dimension - j;"),
     ("src/cli/util.hpp", "for (j = i; j < N; j++)", "for (j = 0; j < N; j++)"),
+    # a write to a name that is not declared in the enclosing function (global / static / member)
+    ("include/tapkee/routines/multidimensional_scaling.hpp", "d *= d;", "d *= d; tapkee_pairs_done++;"),
+    # a call of a function without a summary
+    ("include/tapkee/routines/diffusion_maps.hpp", "ScalarType gk = exp(", "note_progress(i_index_iter); ScalarType gk = exp("),
+    # a clause the descriptor language does not express
+    ("include/tapkee/routines/landmarks.hpp", "#pragma omp for nowait", "#pragma omp for collapse(2) nowait"),
+    # a new conditional region with a reduction in code without any region
+    ("include/tapkee/external/barnes_hut_sne/tsne.hpp", "        for (int n = 0; n < N; n++)\n            tree->computeNonEdgeForces(",
+     "#pragma omp parallel for reduction(+ : sum_Q) if (N >= 1000)\n        for (int n = 0; n < N; n++)\n            tree->computeNonEdgeForces("),
 ]
+
+
+def _nocomment(text):
+    return re.sub(r"\(\*.*?\*\)", "", text, flags=re.S)
 
 
 def self_test(repo, quiet=False):
@@ -1494,7 +1507,7 @@ def self_test(repo, quiet=False):
                 out = to_coq(translate(tmp))
             except TranslateError as ex:
                 out = "ERROR " + str(ex)
-            changed = out != base
+            changed = _nocomment(out) != _nocomment(base)
             if not quiet:
                 print("self-test: %-55s %s" % (rel + ": " + old[:30], "output changed" if changed else "NOT DETECTED"))
             ok = ok and changed
